@@ -1211,6 +1211,72 @@ def _reuse_param_names(fn, only=None, keep=()):
     return changed
 
 
+def desugar_conditionals(stmts, counter=None):
+    """Statement-level form of the conditional sub-expressions of simple statements, for engines that enumerate paths:
+    ``x = F(a, B if c else C)``  ->  ``if c: t = B  else: t = C`` ; ``x = F(a, t)``     and
+    ``x = F(a, E or K)``         ->  ``t = E`` ; ``if not t: t = K`` ; ``x = F(a, t)``
+    when nothing with an effect is evaluated before the sub-expression (plain names and attribute chains only), so that
+    the order of effects is the one of the original statement.  Returns a new list (the input is not changed); the
+    temporaries are numbered from 1 on every top-level call."""
+    counter = counter if counter is not None else [0]
+    out = []
+    for st in stmts:
+        st = copy.deepcopy(st)
+        if isinstance(st, ast.If):
+            st.body = desugar_conditionals(st.body, counter)
+            st.orelse = desugar_conditionals(st.orelse, counter)
+            out.append(st)
+            continue
+        if not isinstance(st, (ast.Assign, ast.Return, ast.Expr)) or getattr(st, "value", None) is None:
+            out.append(st)
+            continue
+        for _ in range(6):
+            cands = [n for n in ast.walk(st.value) if isinstance(n, ast.IfExp) or (
+                isinstance(n, ast.BoolOp) and isinstance(n.op, ast.Or) and len(n.values) == 2)]
+            # not inside a lazily evaluated scope of the statement
+            lazy = {id(x) for n in ast.walk(st.value) if isinstance(n, (ast.Lambda, ast.GeneratorExp, ast.ListComp, ast.SetComp,
+                                                                        ast.DictComp)) for x in ast.walk(n) if x is not n}
+            cands = [c for c in cands if id(c) not in lazy]
+            done = False
+            for c in cands:
+                counter[0] += 1
+                tmp = "cond__%d" % counter[0]
+                probe = copy.deepcopy(st)
+                hit = [False]
+
+                class _P(ast.NodeTransformer):
+                    def generic_visit(self, node):
+                        if ast.dump(node) == ast.dump(c) and not hit[0]:
+                            hit[0] = True
+                            return ast.Name(id=tmp, ctx=ast.Load())
+                        return ast.NodeTransformer.generic_visit(self, node)
+                probe.value = _P().visit(probe.value)
+                if not hit[0] or not _loaded_first(probe, tmp):
+                    continue
+                mk = lambda v: ast.Assign(targets=[ast.Name(id=tmp, ctx=ast.Store())], value=v, lineno=getattr(st, "lineno", 0),
+                                          col_offset=0)
+                if isinstance(c, ast.IfExp):
+                    pre = [ast.If(test=c.test, body=desugar_conditionals([mk(c.body)], counter),
+                                  orelse=desugar_conditionals([mk(c.orelse)], counter),
+                                  lineno=getattr(st, "lineno", 0), col_offset=0)]
+                else:
+                    pre = desugar_conditionals([mk(c.values[0])], counter) + [
+                        ast.If(test=ast.UnaryOp(op=ast.Not(), operand=ast.Name(id=tmp, ctx=ast.Load())),
+                               body=desugar_conditionals([mk(c.values[1])], counter), orelse=[], lineno=getattr(st, "lineno", 0),
+                               col_offset=0)]
+                for p_ in pre:
+                    ast.fix_missing_locations(p_)
+                out.extend(pre)
+                st = probe
+                done = True
+                break
+            if not done:
+                break
+        ast.fix_missing_locations(st)
+        out.append(st)
+    return out
+
+
 def _product_loops_in_view(fn):
     changed = False
     # a, b = E1, E2 outside any try: the sequence (a value that raises ends the function either way)
